@@ -101,6 +101,7 @@ ELEM_PRESERVING = {
     "std::iter::Iterator::filter", "std::iter::Iterator::rev", "std::iter::Iterator::skip_while", "std::iter::Iterator::take_while",
     "std::iter::Iterator::peekable", "std::iter::Iterator::by_ref", "std::iter::Iterator::inspect", "std::iter::Iterator::skip",
     "std::iter::Iterator::take", "std::iter::Iterator::step_by", "std::iter::Iterator::fuse",
+    "std::iter::Iterator::copied", "std::iter::Iterator::cloned",
 }
 
 
@@ -143,6 +144,7 @@ class Prov:
         self._kill_idx = {}
         self._ctor_like = {}
         self._infeasible_memo = {}
+        self.assumptions = []
         self._live = {}
         self._rl_memo = {}
         self._in_progress = set()
@@ -229,6 +231,13 @@ class Prov:
                     i += 1
                 else:
                     o = variant(o, v)
+            elif k == "constindex" and not e.get("from_end"):
+                # element <offset> of an array / slice pattern: a literal array is looked into
+                b0 = peel(o)
+                if b0[0] == "agg" and b0[1] in ("array", "vec") and e["offset"] < len(b0[2]):
+                    o = b0[2][e["offset"]][1]
+                else:
+                    o = ("index", o, e["offset"])
             elif k in ("index", "constindex", "subslice"):
                 o = ("index", o)
             else:
@@ -244,6 +253,14 @@ class Prov:
                 return True
             return db in cfg.reachable_from(db)
         return ub in cfg.reachable_from(db)
+
+    def assuming(self, assumptions):
+        """a provenance engine for the same facts under assumptions [(predicate on the scrutinee's origin, variant name)]:
+        definitions that only run on a `match` edge contradicting an assumption are ignored (used by decision tables,
+        where each cell fixes the variants of the tracked values)"""
+        p = Prov(self.facts)
+        p.assumptions = list(assumptions)
+        return p
 
     def _infeasible(self, fn, bid):
         """block `bid` only runs after taking a `match` edge that contradicts the scrutinee's visible constructor
@@ -265,9 +282,14 @@ class Prov:
             o = self.place(fn, t["discr_of"], (sb, "t"))
             while o[0] == "vp":
                 o = o[2]
-            if o[0] != "agg" or "::" not in o[1] or o[1] in ("tuple", "array", "vec"):
-                continue
-            vn = o[1].rsplit("::", 1)[1]
+            vn = None
+            for pred, v0 in self.assumptions:
+                if pred(o):
+                    vn = v0
+            if vn is None:
+                if o[0] != "agg" or "::" not in o[1] or o[1] in ("tuple", "array", "vec"):
+                    continue
+                vn = o[1].rsplit("::", 1)[1]
             names = [n for v, b, n in t["targets"]]
             if vn not in [n for v, n in t.get("variants", [])]:
                 continue
@@ -840,6 +862,8 @@ def deep_peel(o):
         return (k, o[1], deep_peel(o[2]), deep_peel(o[3]))
     if k in ("unop", "cast"):
         return (k, o[1], deep_peel(o[2]))
+    if k == "index" and len(o) > 2:
+        return (k, deep_peel(o[1]), o[2])
     if k in ("discr", "index", "ok", "err", "some"):
         return (k, deep_peel(o[1]))
     if k in ("field", "variant"):
@@ -917,7 +941,7 @@ def map_origin(o, f):
     if k in ("ok", "err", "some"):
         return payload(map_origin(o[1], f), k)
     if k in ("discr", "index"):
-        return (k, map_origin(o[1], f))
+        return (k, map_origin(o[1], f)) + tuple(o[2:])
     if k == "field":
         return project(map_origin(o[1], f), o[2])
     if k == "variant":
